@@ -96,6 +96,11 @@ static struct { int tid, op; unsigned long k; int len, cp; } delays2[MAXLIST]; s
  * can run), then resumes with the highest priority. Unlike a change point (which lets every other thread run until it blocks), the others get to do
  * only part of their work before t is back. */
 static struct { int tid, op; unsigned long k; unsigned long n; int used; } stalls[MAXLIST]; static int nstall;
+/* harass t op u: while thread t is inside its operation `op`, every scheduling point of t is followed by thread u running up to its next unit boundary
+ * (the end of one of its operations, ds_unit()), then t again (`harass t op u e`: only after every e-th scheduling point of t, e.g. once per
+ * iteration of a retry loop): the densest interference one other thread can produce. Lets a retry loop lose
+ * its compare-and-swap on every iteration for as long as u has work. */
+static struct { int on, t, op, u, pending, every; unsigned long rounds; } harass;
 static struct { int tid; unsigned long k; int at_exit; } sigs[MAXLIST]; static int nsig;
 static struct { char kind[24]; long k; } faults[MAXLIST]; static int nfault;
 static uint64_t rw_rng; static int rw_permille;
@@ -213,6 +218,7 @@ void ds_op_begin(int i)
 	/* C17: when the solo thread has run its whole program the case is over (thread exit paths may legitimately block on suspended threads) */
 	if (i == -1 && ds_i_am_solo()) { in_rt = 1; die("ok", "solo thread finished its program"); }
 	if (self) { self->cur_op = i; self->op_pts = 0; self->op_stores = 0; }
+	ds_unit();
 }
 void *ds_raw_alloc(size_t n) { return __real_calloc(1, n); }
 
@@ -453,6 +459,9 @@ static void sched_point(void)
 			me->state = ST_BLOCK; me->bkind = BK_STALL; me->bobj = NULL;
 			break;
 		}
+	if (harass.on && !solo_on && !harass.pending && tmatch(me, harass.t) && me->cur_op == harass.op && me->op_pts % (unsigned long)harass.every == 0)
+		for (int i = 0; i < nT; i++)
+			if (!T[i].daemon && T[i].scen_idx == harass.u && T[i].state == ST_RUN) { T[i].prio = ++max_prio; harass.pending = 1; harass.rounds++; flags |= 1ull << DSF_HARASS; break; }
 	if (rw_permille && (int)(xs(&rw_rng) % 1000) < rw_permille) {
 		int cand[MAXT], nc = 0;
 		for (int i = 0; i < nT; i++) if (T[i].state == ST_RUN) cand[nc++] = i;
@@ -478,6 +487,16 @@ static void yield_hint(void)
 	in_rt = 0;
 }
 void ds_yield(void) { yield_hint(); }
+/* unit boundary of the calling thread (one removal of a drain loop, or an operation boundary): a harassing thread hands the processor back */
+void ds_unit(void)
+{
+	struct thr *me = self;
+	if (!active || !me || in_rt || !harass.on || !harass.pending || me->daemon || me->scen_idx != harass.u) return;
+	harass.pending = 0;
+	me->run_since_switch = 0;	/* the alternation is a sequence of switches, not one long time slice */
+	for (int i = 0; i < nT; i++) if (tmatch(&T[i], harass.t) && T[i].state == ST_RUN) { T[i].prio = ++max_prio; T[i].run_since_switch = 0; }
+	sched_point();
+}
 /* scenario code made observable progress that is not a memory write (a traversal reached another node): resets the no-progress detector */
 void ds_progress(void) { last_progress_step = ds_step; }
 /* bulk mode: the calling thread runs a long, uninteresting stretch of library calls (tens of thousands of nested rcu_read_lock()) as one scheduling
@@ -1095,6 +1114,7 @@ static void parse_case(char *text)
 		else if (!strcmp(w, "dprio")) { int m; while (ndprio < MAXLIST && sscanf(rest, "%ld%n", &dprio_list[ndprio], &m) == 1) { ndprio++; rest += m; } }
 		else if (!strcmp(w, "cp")) { if (ncp < MAXLIST && sscanf(rest, "%d %d %lu", &cps[ncp].tid, &cps[ncp].op, &cps[ncp].k) == 3) ncp++; }
 		else if (!strcmp(w, "delay")) { if (ndelay < MAXLIST && sscanf(rest, "%d %lu %d", &delays[ndelay].tid, &delays[ndelay].j, &delays[ndelay].len) == 3) ndelay++; }
+		else if (!strcmp(w, "harass")) { harass.every = 1; if (sscanf(rest, "%d %d %d %d", &harass.t, &harass.op, &harass.u, &harass.every) >= 3) harass.on = 1; if (harass.every < 1) harass.every = 1; }
 		else if (!strcmp(w, "stall")) { if (nstall < MAXLIST && sscanf(rest, "%d %d %lu %lu", &stalls[nstall].tid, &stalls[nstall].op, &stalls[nstall].k, &stalls[nstall].n) == 4) nstall++; }
 		else if (!strcmp(w, "delay2")) { if (ndelay2 < MAXLIST && sscanf(rest, "%d %d %lu %d %d", &delays2[ndelay2].tid, &delays2[ndelay2].op, &delays2[ndelay2].k, &delays2[ndelay2].len, &delays2[ndelay2].cp) == 5) ndelay2++; }
 		else if (!strcmp(w, "sigx")) { if (nsig < MAXLIST && sscanf(rest, "%d %lu", &sigs[nsig].tid, &sigs[nsig].k) == 2) { sigs[nsig].at_exit = 1; nsig++; } }
